@@ -1063,3 +1063,11 @@ TWINS = [
      ("    a20 = np.sum(dxy * (xi_1 * xii_1 + xi2))",
       "    a20 = np.sum((xi2 + xi_1 * xii_1) * dxy)")),
 ]
+
+# mutant that re-introduces the repaired defect F18b (applies to the fixed tree)
+MUTANTS = list(MUTANTS) + [
+    ("original z order with re-oriented r (F18b returns)",
+     "dclab/features/volume.py",
+     ("vol_right = vol_revolve(contour_right, contour_z, pix)",
+      "vol_right = vol_revolve(contour_right, contour_x, pix)"), "R18.6"),
+]
